@@ -14,6 +14,7 @@
        attempt_out = [lvm org.s org.f rx.s rx.f tx.s tx.f result]   (the request as seen on the wire)
        result      = [0 errclass] | [1 inter t0 t1 t2 t3 off rtd at prev]
        prev        = [ref inter ctx.s ctx.f crx.s crx.f srx.s srx.f]
+   case "c03.fallback": see below
    case "c03.kstamps": args = attempts fallback_tx fallback_rx (per worker process) *)
 From Coq Require Import ZArith List String Bool.
 From ST Require Import Base.Ints Base.Value Model.NtpTime Model.Exchange Model.ExchangeOracle Extract.GlueBase.
@@ -145,6 +146,31 @@ Definition glue_C03 (k : string) (a o : list value) : option verdict :=
         | _, _ => None
         end
     | _ => None
+    end
+  else if is k "c03.fallback" then
+    (* one basic exchange of a client whose transmit (and receive) stamps are clock
+       readings taken after the fact (kernel timestamps unavailable); the oracle is
+       the same: stamps in the bracket of the scripted exchange, half-RTT bound.
+       args = scion now0 ctx1 dgram lo0 srx stx theta hi3
+       outs = t0 t1 t2 t3 offset (t0 - lo0) |offset - theta| *)
+    match a, o with
+    | [VZ scion; VZ now0; VZ ctx1; dg; VZ lo0; VZ srx; VZ stx; VZ theta; VZ hi3],
+      [VZ ot0; VZ ot1; VZ ot2; VZ ot3; VZ ooff; VZ _; VZ _] =>
+        match parse_dgram dg with
+        | Some d =>
+            let c := {| c_scion := negb (scion =? 0); c_im := false |} in
+            let x := {| x_lo0 := lo0; x_srx := srx; x_stx := stx; x_theta := theta; x_hi3 := hi3 |} in
+            let expected :=
+              match attempt c 1 prev_init {| ai_now0 := now0; ai_ctx1 := ctx1; ai_dgrams := [d] |} with
+              | (_, _, AAccept r) =>
+                  [VZ (a_t0 r); VZ (a_t1 r); VZ (a_t2 r); VZ (a_t3 r); VZ (a_off r);
+                   VZ (a_t0 r - lo0); VZ (Z.abs (a_off r - theta))]
+              | _ => [VZ 0]
+              end in
+            Some (functional expected o (C03_ok ooff ot0 ot1 ot2 ot3 [x]))
+        | None => None
+        end
+    | _, _ => None
     end
   else if is k "c03.kstamps" then
     (* the client combines kernel timestamps; the fallback to a clock reading
